@@ -89,6 +89,9 @@ pub struct Rig {
     /// times at which the probe showed the station entering UseToken (using, not claiming, the token)
     pub use_token_entries: Vec<Us>,
     last_state: &'static str,
+    /// times at which the probe showed the station in CheckTokenPass with attempt >= 2 (a repeated token pass)
+    pub pass_retries: Vec<Us>,
+    last_sub: u8,
 }
 
 impl Rig {
@@ -111,6 +114,8 @@ impl Rig {
             trace_polls: std::env::var("PBMON_TRACE_POLLS").is_ok(),
             use_token_entries: Vec::new(),
             last_state: "",
+            pass_retries: Vec::new(),
+            last_sub: 0,
         }
     }
 
@@ -160,7 +165,11 @@ impl Rig {
             if p.state == "UseToken" && self.last_state != "UseToken" && self.last_state != "AwaitDataResponse" {
                 self.use_token_entries.push(self.world.now);
             }
+            if p.state == "CheckTokenPass" && p.sub >= 2 && (self.last_state != "CheckTokenPass" || self.last_sub != p.sub) {
+                self.pass_retries.push(self.world.now);
+            }
             self.last_state = p.state;
+            self.last_sub = p.sub;
         }
         if self.world.now < t {
             // nothing scheduled in between: jump
